@@ -111,7 +111,12 @@ def run(ctx):
     for s in seeds:
         maps += _gen(ctx, ["tempo-gen", "-n", str(200 if q else 1250), "-q", str(50 if q else 200), "-seed", str(s)] + narrow, "maps")
         invs += _gen(ctx, ["tempo-inv", "-n", str(5000 if q else 25000), "-per", "50", "-seed", str(s)], "inv")
-    fails = judge(ctx, maps) + judge(ctx, invs)
+    # interleave the two kinds so that the shards of the trace validation carry equal work
+    recs, step = [], max(1, len(maps) // max(1, len(invs)))
+    for i, r in enumerate(invs):
+        recs += maps[i * step:(i + 1) * step] + [r]
+    recs += maps[len(invs) * step:]
+    fails = judge(ctx, recs)
     nq = sum(len(r["queries"]) for r in maps)
     ne = sum(len(t) for r in maps for t in r["do"])
     nt = sum(len(r["triples"]) for r in invs)
